@@ -13,6 +13,7 @@ CONSTANTS N = 2
   G_WALKDEPTH = FALSE
   G_FILTERTOP = TRUE
   FSTREAM = FALSE
+  G_NAVACC = TRUE
 INVARIANTS NoOverflow WorkBounded ChainBounded
 PROPERTY Termination
 CHECK_DEADLOCK FALSE
